@@ -575,77 +575,103 @@ Definition sel (p : nat) : bool := mem p (i0 :: desc g i0).
 Lemma sel_key p : sel p = true <-> In p (map fst fk).
 Proof. unfold sel. rewrite Hkeys. apply mem_in. Qed.
 
+Lemma key_of_assoc p (x : option V) : assoc p fk = Some x -> In p (map fst fk).
+Proof. intros E. destruct (in_dec Nat.eq_dec p (map fst fk)) as [H|H]; [exact H|]. apply assoc_keys in H. congruence. Qed.
+
 Lemma mapM_mixed (m : M) (vs : vals) : forall ps olds curs,
   Forall2 (fun p v => override vs fk p = Some v) ps olds ->
   Forall2 (fun p v => vs p = Some v) ps curs ->
-  mapM (revert_mask sm m vs fk) ps = Some (mix_args sm m sel ps olds curs).
+  (forall p o c, In p ps -> sel p = true -> override vs fk p = Some o -> vs p = Some c -> mix sm m o c <> None) ->
+  exists news, mapM (revert_mask sm m vs fk) ps = Some news /\ mixed_args sm m sel ps olds curs news.
 Proof.
-  induction ps as [|p r IH]; intros olds curs HO HC; inversion HO; inversion HC; subst; cbn [mapM mix_args]; [reflexivity|].
-  rewrite (IH _ _ H3 H8). unfold revert_mask at 1. unfold override in H1.
+  induction ps as [|p r IH]; intros olds curs HO HC Hm; inversion HO; inversion HC; subst.
+  { exists []. split; [reflexivity | constructor]. }
+  destruct (IH _ _ H3 H8) as [news [Hn Hmx]]; [intros q o c Hq; apply Hm; now right|].
+  cbn [mapM]. rewrite Hn. unfold revert_mask at 1. pose proof H1 as Hov. unfold override in H1.
   destruct (assoc p fk) as [oo|] eqn:E.
   - subst oo. rewrite H6.
-    assert (S : sel p = true).
-    { apply sel_key. destruct (in_dec Nat.eq_dec p (map fst fk)) as [H|H]; [exact H|]. apply assoc_keys in H. congruence. }
-    rewrite S. reflexivity.
+    assert (S : sel p = true) by (apply sel_key; exact (key_of_assoc p _ E)).
+    destruct (mix sm m y y0) as [x|] eqn:Ex; [|exfalso; exact (Hm p y y0 (or_introl eq_refl) S Hov H6 Ex)].
+    exists (x :: news). split; [reflexivity | now constructor].
   - rewrite H6.
     assert (S : sel p = false).
     { destruct (sel p) eqn:S; [|reflexivity]. apply sel_key in S. apply assoc_keys in E. contradiction. }
-    rewrite S. reflexivity.
+    assert (y = y0) by congruence. subst y0.
+    exists (y :: news). split; [reflexivity | now constructor].
 Qed.
-
-Lemma same_unselected (vs : vals) : forall ps olds curs,
-  Forall2 (fun p v => override vs fk p = Some v) ps olds ->
-  Forall2 (fun p v => vs p = Some v) ps curs ->
-  forall j p, nth_error ps j = Some p -> sel p = false -> nth_error olds j = nth_error curs j.
-Proof.
-  induction ps as [|q r IH]; intros olds curs HO HC j p Hj Hs; inversion HO; inversion HC; subst.
-  - destruct j; discriminate.
-  - destruct j as [|j]; cbn [nth_error] in *.
-    + injection Hj as ->. rewrite override_nokey in H1; [congruence|].
-      intros H. apply sel_key in H. congruence.
-    + eapply IH; eauto.
-Qed.
-
-Lemma Forall2_length {A B} (R : A -> B -> Prop) l l' : Forall2 R l l' -> length l = length l'.
-Proof. induction 1; cbn; congruence. Qed.
 
 Lemma Inv_revert_mask (m : M) (vs : vals) :
   Inv g vs -> Inv g (override vs fk) ->
-  (forall c o, In (c, Some o) fk -> vs c <> None -> ind_axis g c = true) ->
+  (forall c o cur, In (c, Some o) fk -> vs c = Some cur -> ind_axis g c = true /\ mix sm m o cur <> None) ->
   Inv g (revert_mask sm m vs fk).
 Proof.
   intros HI HO Hax k w Hk Lk Hw. unfold revert_mask in Hw.
   destruct (assoc k fk) as [oo|] eqn:E.
   - destruct oo as [o|]; [|discriminate]. destruct (vs k) as [c|] eqn:Ec; [|discriminate].
-    injection Hw as <-.
     assert (Hold : override vs fk k = Some o) by (now apply override_key).
     destruct (HO k o Hk Lk Hold) as [olds [Hmo ->]].
     destruct (HI k c Hk Lk Ec) as [curs [Hmc ->]].
     pose proof (mapM_some _ _ _ Hmo) as FO. pose proof (mapM_some _ _ _ Hmc) as FC.
-    exists (mix_args sm m sel (parents g k) olds curs). split; [now apply mapM_mixed|].
-    symmetry. apply fmix; auto.
-    + apply (Hax k (F g k olds)); [now apply assoc_in | congruence].
-    + symmetry. exact (Forall2_length _ _ _ FO).
-    + symmetry. exact (Forall2_length _ _ _ FC).
+    assert (Hsel : forall p o c, override vs fk p = Some o -> vs p = Some c -> sel p = true -> In (p, Some o) fk).
+    { intros p o c Hop Hcp Hs. apply assoc_in. unfold override in Hop. apply sel_key in Hs.
+      destruct (assoc p fk) eqn:Ep; [congruence | apply assoc_keys in Ep; contradiction]. }
+    destruct (mapM_mixed m vs (parents g k) olds curs FO FC) as [news [Hn Hmx]].
+    { intros p o c _ Hs Hop Hcp. exact (proj2 (Hax p o c (Hsel p o c Hop Hcp Hs) Hcp)). }
+    exists news. split; [exact Hn|]. symmetry. apply (fmix k m sel olds curs news w); auto.
+    + exact (proj1 (Hax k (F g k olds) (F g k curs) (assoc_in _ _ _ E) Ec)).
     + assert (Hkd : In k (desc g i0)).
-      { assert (In k (map fst fk)) by (destruct (in_dec Nat.eq_dec k (map fst fk)) as [H|H]; [exact H | apply assoc_keys in H; congruence]).
-        rewrite Hkeys in H. destruct H as [<-|H]; [congruence | exact H]. }
+      { pose proof (key_of_assoc k _ E) as H. rewrite Hkeys in H. destruct H as [<-|H]; [congruence | exact H]. }
       destruct (wf_desc_only wf i0 k Hi0 Hkd) as [p [Hp Hor]]. exists p. split; [exact Hp|].
       unfold sel. apply mem_in. destruct Hor as [->|H]; [now left | now right].
-    + intros p Hp Hs. apply sel_key in Hs.
+    + intros p Hp Hs.
       destruct (mapM_some_in _ _ _ p Hmo Hp) as [op Hop]. destruct (mapM_some_in _ _ _ p Hmc Hp) as [cp Hcp].
-      apply (Hax p op); [|congruence]. apply assoc_in. unfold override in Hop.
-      destruct (assoc p fk) eqn:Ep; [congruence | apply assoc_keys in Ep; contradiction].
-    + exact (same_unselected vs _ _ _ FO FC).
+      exact (proj1 (Hax p op cp (Hsel p op cp Hop Hcp Hs) Hcp)).
   - destruct (HI k w Hk Lk Hw) as [args [Hm ->]]. exists args. split; [|reflexivity].
     rewrite <- Hm. apply mapM_ext. intros p Hp. unfold revert_mask.
     destruct (assoc p fk) eqn:Ep; [|reflexivity]. exfalso.
-    assert (In p (map fst fk)) by (destruct (in_dec Nat.eq_dec p (map fst fk)) as [H|H]; [exact H | apply assoc_keys in H; congruence]).
-    pose proof (key_child k p Hk Hp H) as Hkk. apply assoc_keys in E. contradiction.
+    pose proof (key_child k p Hk Hp (key_of_assoc p _ Ep)) as Hkk. apply assoc_keys in E. contradiction.
 Qed.
 
 End WithFork.
 
+
+(** the loop of the partial revert computes [revert_mask] entry by entry when no mix raises *)
+Lemma revert_mask_upd_other (m : M) (vs : vals) k x (r : forkd V) j : j <> k ->
+  revert_mask sm m (upd vs k x) r j = revert_mask sm m vs r j.
+Proof. intros H. unfold revert_mask. now rewrite upd_other. Qed.
+
+Lemma revert_items_spec (m : M) : forall (fk : forkd V) (vs : vals), NoDup (map fst fk) ->
+  (forall c o cur, In (c, Some o) fk -> vs c = Some cur -> mix sm m o cur <> None) ->
+  snd (revert_items sm m vs fk) = true /\ forall j, fst (revert_items sm m vs fk) j = revert_mask sm m vs fk j.
+Proof.
+  induction fk as [|[k old] r IH]; intros vs ND Hm; [split; reflexivity|].
+  cbn [map fst] in ND. inversion ND as [|? ? Hk NDr]; subst.
+  assert (Hk' : assoc k r = None) by (now apply assoc_keys).
+  assert (Step : forall x, (forall c o cur, In (c, Some o) r -> upd vs k x c = Some cur -> mix sm m o cur <> None)).
+  { intros x c o cur Hin Hc. apply (Hm c o cur); [now right|].
+    rewrite upd_other in Hc; [exact Hc|]. intros ->. apply Hk. apply (in_map fst) in Hin. exact Hin. }
+  assert (Pt : forall x, (match old, vs k with Some o, Some c => mix sm m o c | _, _ => None end) = x ->
+               forall j, revert_mask sm m (upd vs k x) r j = revert_mask sm m vs ((k, old) :: r) j).
+  { intros x Hx j. destruct (Nat.eq_dec j k) as [->|Hjk].
+    - unfold revert_mask. cbn [assoc]. rewrite Nat.eqb_refl, Hk', upd_same. now symmetry.
+    - rewrite revert_mask_upd_other by exact Hjk. unfold revert_mask. cbn [assoc].
+      apply Nat.eqb_neq in Hjk. now rewrite Hjk. }
+  cbn [revert_items]. destruct old as [o|]; [destruct (vs k) as [c|] eqn:Ec|].
+  - destruct (mix sm m o c) as [x|] eqn:Ex; [|exfalso; exact (Hm k o c (or_introl eq_refl) Ec Ex)].
+    destruct (IH (upd vs k (Some x)) NDr (Step _)) as [H1 H2]. split; [exact H1|].
+    intros j. rewrite H2. apply Pt. reflexivity.
+  - destruct (IH (upd vs k None) NDr (Step _)) as [H1 H2]. split; [exact H1|].
+    intros j. rewrite H2. apply Pt. reflexivity.
+  - destruct (IH (upd vs k None) NDr (Step _)) as [H1 H2]. split; [exact H1|].
+    intros j. rewrite H2. apply Pt. now destruct (vs k).
+Qed.
+
+Lemma increasing_NoDup l : increasing l -> NoDup l.
+Proof.
+  induction l as [|a r IH]; intros H; constructor.
+  - intros Hin. pose proof (increasing_lt a r H a Hin). lia.
+  - apply IH. exact (increasing_tail _ _ H).
+Qed.
 
 (** ** every operation keeps every state of the store consistent *)
 
@@ -726,13 +752,19 @@ Proof.
   destruct o as [x|]; [|reflexivity]. apply assoc_in in Ea. assert (k < n) by (apply (Hb k (Some x)); [exact Ea | discriminate]). lia.
 Qed.
 
-Lemma Good_revert_mask st m : F_mix g sm -> Good st -> mask_ok g st -> Good (fst (revert_mask_state sm st m)).
+Lemma Good_revert_mask st m : F_mix g sm -> Good st -> mask_ok g sm m st -> Good (fst (revert_mask_state sm st m)).
 Proof.
   intros HFm [HI [HB HF]] Hm. unfold revert_mask_state. unfold ForkOK in HF. unfold mask_ok in Hm.
   destruct (fork st) as [fk|] eqn:E; [|cbn; split; [exact HI | split; [exact HB | unfold ForkOK; rewrite E; exact I]]].
-  destruct HF as [i [Hi [Hs [Hk [HO Hb]]]]]. cbn [fst]. split; [|split; [|exact I]].
-  - apply (Inv_revert_mask fk i Hi Hk (wf_settable_indep wf i Hi Hs) HFm m (values st) HI HO Hm).
-  - intros k Hk'. cbn [values]. unfold revert_mask. rewrite (HB k Hk'). destruct (assoc k fk) as [[x|]|]; reflexivity.
+  destruct HF as [i [Hi [Hs [Hk [HO Hb]]]]].
+  destruct (revert_items_spec m fk (values st)) as [Hok Hpt].
+  { rewrite Hk. apply increasing_NoDup. now apply (wf_desc_inc wf). }
+  { intros c o cur Hin Hc. exact (proj2 (Hm c o cur Hin Hc)). }
+  destruct (revert_items sm m (values st) fk) as [vs' ok]. cbn [fst snd] in *. subst ok. cbn [fst].
+  split; [|split; [|exact I]]; cbn [values].
+  - apply (Inv_ext (revert_mask sm m (values st) fk)); [intros j; now rewrite Hpt|].
+    apply (Inv_revert_mask fk i Hi Hk (wf_settable_indep wf i Hi Hs) HFm m (values st) HI HO Hm).
+  - intros k Hk'. rewrite Hpt. unfold revert_mask. rewrite (HB k Hk'). destruct (assoc k fk) as [[x|]|]; reflexivity.
 Qed.
 
 Lemma Good_clone st d kp : Good st -> Good (clone_state st d kp).
@@ -774,7 +806,7 @@ Qed.
 Lemma AllGood_init : AllGood (init_store g).
 Proof. intros [|k] st H; cbn in H; [injection H as <-; apply Good_init | destruct k; discriminate]. Qed.
 
-Theorem Good_step s o : F_mix g sm -> AllGood s -> op_ok g chk s o -> AllGood (fst (step g sm fx s o)).
+Theorem Good_step s o : F_mix g sm -> AllGood s -> op_ok g sm chk s o -> AllGood (fst (step g sm fx s o)).
 Proof.
   intros HFm HA Hok. destruct o; cbn [step].
   - apply AllGood_on_state; [exact HA|]. intros st Hst. apply Good_get. now apply (HA k).
